@@ -94,7 +94,7 @@ def twin(S, r, dim, geo_dim):
             elif op == '/' and isinstance(n[1], list) and n[1][0] == '+' and n[1][1] == C(1.5): new = ['/', n[2], n[1]]        # both operands bounded away from zero
             elif op in ('inner', 'cross') and n[1] != n[2]: new = [op, n[2], n[1]]
         elif z < 0.85:
-            if op == 'const': new = C(n[1] * (1.0 + 1e-6) if n[1] else 1e-6) if r.random() < 0.5 else C(-n[1] if n[1] else 1.0)
+            if op == 'const': new = C(n[1] * (1.0 + 1e-6) if n[1] else 1e-6)        # nudged, never negated: the constants also guard the domains of sqrt/log and the denominators
             elif op == 'pow': new = ['pow', n[1], n[2] + 1]
         else:
             if op == 'x' and geo_dim > 1: new = ['x', (n[1] + 1) % geo_dim]
